@@ -611,6 +611,10 @@ func RunTunnel(env *TunnelEnv, c *TunnelCase, hello []byte) *TunnelResult {
 	return res
 }
 
+// DrainListener closes the connections waiting in the listener's queue and returns their number
+// (connections of other processes on a shared machine, or ones nobody accepted).
+func DrainListener(l *net.TCPListener) int { return drainForeign(l) }
+
 // drainForeign closes the connections waiting in the listener's queue and returns their number.
 func drainForeign(l *net.TCPListener) int {
 	n := 0
